@@ -41,6 +41,10 @@ func ZZ_C02_roundsWithNodeChurn() {
 	}
 	ds.Spec.Template = tpl("B")
 	datadoghqv1alpha1.DefaultExtendedDaemonSetSpec(&ds.Spec, datadoghqv1alpha1.ExtendedDaemonSetSpecStrategyCanaryValidationModeAuto)
+	// a migration finished long ago may have left its annotation behind, naming a DaemonSet that no longer exists
+	if nondet.Bool("oldDaemonsetAnnotationLeftBehind") {
+		ds.Annotations[datadoghqv1alpha1.ExtendedDaemonSetOldDaemonsetAnnotationKey] = "long-gone"
+	}
 	rsOld := zzRS("foo-a", hash("A"))
 	rsOld.Spec.Template = tpl("A")
 	rsOld.Annotations = map[string]string{datadoghqv1alpha1.MD5ExtendedDaemonSetAnnotationKey: hash("A")}
